@@ -78,6 +78,9 @@ type Exec struct {
 	s          *Solver
 	globals    map[*ssa.Global]*Value
 	stdGlobals map[*ssa.Global]*Value
+	facts      map[*Term]bool // conditions decided on the current path (syntactic implied-branch cache)
+	factHits   int
+	uniq       map[string]*Value // unique.Make interning table (lives as long as stdGlobals)
 
 	trace    []traceEntry
 	pos      int
@@ -218,6 +221,26 @@ func (x *Exec) decideVal(fr *frame, c *Term, val uint64, hasVal bool) bool {
 	if c.IsConst() {
 		return c.val == 1
 	}
+	// syntactic fact cache: a condition (or its negation) already decided on this path is implied
+	// by the path condition; hash-consing makes the lookup exact. No trace entry, no query
+	// (deterministic: the facts are a function of the trace prefix).
+	fkey, fpol := c, true
+	if c.op == OpNot {
+		fkey, fpol = c.args[0], false
+	}
+	if v, ok := x.facts[fkey]; ok {
+		x.factHits++
+		return v == fpol
+	}
+	r := x.decideVal0(fr, c, val, hasVal)
+	if x.facts == nil {
+		x.facts = map[*Term]bool{}
+	}
+	x.facts[fkey] = r == fpol
+	return r
+}
+
+func (x *Exec) decideVal0(fr *frame, c *Term, val uint64, hasVal bool) bool {
 	if x.replaying() {
 		i := x.pos
 		e := &x.trace[i]
@@ -344,12 +367,35 @@ func (x *Exec) choice(n int, tag string) int {
 	return int(v)
 }
 
+func (x *Exec) factTrue(c *Term) bool {
+	if c.op == OpNot {
+		v, ok := x.facts[c.args[0]]
+		return ok && !v
+	}
+	v, ok := x.facts[c]
+	return ok && v
+}
+
+func (x *Exec) noteFact(c *Term) {
+	if x.facts == nil {
+		x.facts = map[*Term]bool{}
+	}
+	if c.op == OpNot {
+		x.facts[c.args[0]] = false
+	} else {
+		x.facts[c] = true
+	}
+}
+
 func (x *Exec) assume(c *Term) {
 	if c.IsTrue() {
 		return
 	}
 	if c.IsFalse() {
 		panic(pathEnd{"assume(false)"})
+	}
+	if x.factTrue(c) {
+		return
 	}
 	if x.replaying() {
 		i := x.pos
@@ -362,6 +408,7 @@ func (x *Exec) assume(c *Term) {
 			x.pushAssert(e, c)
 			x.asserted = i + 1
 		}
+		x.noteFact(c)
 		return
 	}
 	holds := false
@@ -381,6 +428,7 @@ func (x *Exec) assume(c *Term) {
 		}
 		x.model = m
 	}
+	x.noteFact(c)
 	e := traceEntry{kind: 'a'}
 	x.pushAssert(&e, c)
 	x.trace = append(x.trace, e)
@@ -479,6 +527,14 @@ func (x *Exec) assert(c *Term, msg string, pos string) {
 	if c.IsTrue() {
 		if !x.replaying() {
 			// decided by constant folding / concrete evaluation on this path
+			x.h.Obligations++
+			x.h.Discharged++
+		}
+		return
+	}
+	if x.factTrue(c) {
+		// the same condition was already asserted/decided on this path
+		if !x.replaying() {
 			x.h.Obligations++
 			x.h.Discharged++
 		}
@@ -591,6 +647,7 @@ func (eng *Engine) RunHarness(fn *ssa.Function) *HarnessRun {
 			}
 			x.f, x.s = f, s
 			x.stdGlobals = map[*ssa.Global]*Value{}
+			x.uniq = nil
 			x.asserted = 0
 			x.model = nil
 			for i := range x.trace {
@@ -617,6 +674,7 @@ func (eng *Engine) RunHarness(fn *ssa.Function) *HarnessRun {
 func (x *Exec) runPath(fn *ssa.Function) {
 	x.globals = map[*ssa.Global]*Value{}
 	x.pos = 0
+	x.facts = nil
 	x.ndlog = nil
 	x.ndCount = 0
 	x.steps, x.blocks = 0, 0
@@ -842,6 +900,50 @@ func (x *Exec) altModels() [][]ndEvent {
 			out = append(out, x.modelReplay())
 		}
 		x.s.PopTo(base)
+	}
+	// extremal models for value-specific defects behind opaque (uninterpreted) arithmetic: one
+	// 64-bit input huge (beyond 2^53, odd) or at the top of its range, the other 64-bit inputs at
+	// small round values; each constraint is kept only if the violating path stays satisfiable.
+	var wide []*Term
+	for _, v := range vars {
+		if v.w == 64 {
+			wide = append(wide, v)
+		}
+	}
+	if len(wide) > 3 {
+		wide = wide[:3]
+	}
+	try := func(c *Term) bool {
+		x.s.Push()
+		x.s.Assert(c)
+		if x.s.CheckPoison(x.s.Check()) != Sat {
+			x.s.Pop()
+			return false
+		}
+		return true
+	}
+	for k := range wide {
+		for fam := 0; fam < 2; fam++ {
+			base := x.s.level
+			v := wide[k]
+			if fam == 0 {
+				try(f.And(f.Eq(f.Extract(v, 63, 62), f.Const(2, 1)), f.Eq(f.Extract(v, 1, 0), f.Const(2, 3))))
+			} else {
+				try(f.Eq(v, f.Const(64, mask(64)>>1)))
+			}
+			for j, o := range wide {
+				if j == k {
+					continue
+				}
+				if !try(f.Eq(o, f.Const(64, 1))) {
+					try(f.Eq(o, f.Const(64, 1000)))
+				}
+			}
+			if x.s.CheckPoison(x.s.Check()) == Sat {
+				out = append(out, x.modelReplay())
+			}
+			x.s.PopTo(base)
+		}
 	}
 	return out
 }
